@@ -173,6 +173,7 @@ class Effects:
         self.total_calls = 0
         self.resolved_calls = 0
         self.unresolved_names: Dict[str, int] = {}
+        self.stats: Dict[str, int] = {"package": 0, "external-modelled": 0, "callable-value": 0, "unknown": 0}
         self.edges: Dict[str, set] = {}  # caller FunctionInfo.key -> callee keys (resolved package calls)
         self.fn_by_key: Dict[str, FunctionInfo] = {}
 
@@ -784,9 +785,11 @@ class _FnAnalysis:
     def mark_resolved(self, external: bool = False):
         self.nresolved += 1
         self.eng.resolved_calls += 1
+        self.eng.stats["external-modelled" if external else "package"] += 1
 
     def mark_unresolved(self, name: str):
         self.eng.unresolved_names[name] = self.eng.unresolved_names.get(name, 0) + 1
+        self.eng.stats["unknown"] += 1
 
     def eval_args(self, c: ast.Call, st: State):
         args: List[Val] = []
